@@ -1,5 +1,5 @@
 """Per-property generators, correspondence runs, spec comparison, violation search."""
-import os, sys, json, random, time
+import json, os, sys, json, random, time
 import axv
 
 ROOT = axv.ROOT
@@ -365,7 +365,18 @@ def _mem_prop(prop_id, tier, seed):
 
 @prop("C08")
 def c08(tier, seed, **kw):
-    return _mem_prop("C08", tier, seed)
+    res = _mem_prop("C08", tier, seed)
+    # guest accesses: every instruction form with a memory operand placed at / across area edges
+    g = instr_check("C08", tier, seed, gen_filter=lambda c: c["placement"] in ("edge", "start", "rw", "rwx", "ro"),
+                    with_hw=False, n_override=4000 if tier == "quick" else 60000)
+    res["violations"] = res.get("violations", []) + g.get("violations", [])
+    res["broken"] = res.get("broken", []) + g.get("broken", [])
+    res.setdefault("extra", {})["guest_access_cases"] = g.get("cases", 0)
+    res["extra"]["guest_access_forms"] = g.get("extra", {}).get("forms_exercised", 0)
+    res["rule"] += ("; plus single-instruction guest accesses (every dispatched form with a memory operand, 1/2/4/8/16 bytes) at "
+                    "area edges, misaligned and straddling positions compared with the ISA specification's byte-store reads/writes")
+    res["cases"] = res.get("cases", 0) + g.get("cases", 0)
+    return res
 
 
 @prop("C09")
@@ -423,16 +434,23 @@ def gen_exec_histories(seed, n):
         lines.append("case " + cid)
         prog = b""
         mnems = []
+        bounds = [0]
         for _ in range(rng.randrange(1, 9)):
             name, mk, mn = rng.choices(SNIPPETS, weights=[6, 5, 5, 4, 3, 3, 3, 3, 3, 3, 4, 2, 2, 2, 1, 1, 1])[0]
             prog += mk(rng)
+            bounds.append(len(prog))
             if mn:
                 mnems.append(mn)
             h("snip-" + name)
         start = rng.choice([0x1000, 0x4000, 0x400000])
         rip = start
+        if rng.random() < 0.3 and len(bounds) > 2:
+            rip = start + rng.choice(bounds[1:-1])   # entry point inside the code
+            h("entry-inside")
         lines.append("new %s %x %x" % (prog.hex(), start, rip))
-        lines.append("allregs " + " ".join("%x" % rng.choice([0, 1, 5, 60, 12, rng.randrange(1 << 32)]) for _ in range(16)))
+        rv = [rng.choice([0, 1, 5, 60, 12, rng.randrange(1 << 32)]) for _ in range(16)]
+        rv[5] = rng.choice([0, 1, 5, 60, 12, 0x3000, 0x5000, rng.randrange(1 << 20)])   # RDI: a brk argument stays small
+        lines.append("allregs " + " ".join("%x" % v for v in rv))
         lines.append("allxmm " + " ".join("0" for _ in range(16)))
         lines.append("flags %x" % rng.choice([0, 0x40, 0x1, 0x8d5]))
         if rng.random() < 0.8:
@@ -555,8 +573,14 @@ def gen_sys_histories(seed, n, focus):
             elif r < 0.44:
                 target = max(heap, cur - rng.choice([1, 8, 0x100, 0x800, 0x1000]))
                 call(12, target); cur = target; h("brk-shrink")
-            elif r < 0.47:
+            elif r < 0.455:
                 call(12, rng.choice([1, 0x2fff, heap - 1, 0x1000])); h("brk-below-base")
+            elif r < 0.47:
+                # a neighbour created after the heap exists: a later brk must not grow over it
+                if rng.random() < 0.5:
+                    lines.append("zeroany %x" % rng.choice([0x10, 0x800, 0x1000])); h("late-area-anywhere")
+                else:
+                    lines.append("zero %x %x" % (((cur + 0xfff) & ~0xfff) + rng.choice([0, 0x1000]), rng.choice([0x10, 0x1000]))); h("late-area-above-heap")
             elif r < 0.50:
                 # guest access to the heap through the API
                 a = heap + rng.randrange(0, max(1, cur - heap))
@@ -576,7 +600,11 @@ def gen_sys_histories(seed, n, focus):
             elif r < 0.96:
                 fd = 1024 + 2 * rng.randrange(max(1, npipes)) if rng.random() < 0.85 else rng.choice([0, 1, 3, 1025, 99999])
                 cnt = rng.choice([0, 1, 2, 3, 8, 16, 100, 1000])
-                call(0, fd, buf + 128 + rng.randrange(0, 32), cnt); h("read")
+                if rng.random() < 0.12:
+                    # destination not (fully) writable: the read fails and must not consume the data
+                    call(0, fd, rng.choice([0, 0x1000, buf + 250, buf + 255, 0x7ff8]), cnt); h("read-bad-buffer")
+                else:
+                    call(0, fd, buf + 128 + rng.randrange(0, 32), cnt); h("read")
             elif r < 0.98:
                 call(158, rng.choice([0x1001, 0x1002, 0x1003, 0x1004, 5]), rng.choice([buf, 0, 0x3000])); h("arch_prctl")
             else:
@@ -654,6 +682,9 @@ PROP_KINDS = {
     "C05": (lambda c: True, ("regs", "rsp", "mem", "fault-mismatch", "xmm", "panic")),
     "C06": (lambda c: not isa_cmp.is_os(c), ("fault-mismatch", "mem-after-fault", "panic")),
     "C19": (lambda c: True, ("panic",)),
+    # guest loads / stores of every width against the byte store (area edges, misaligned, straddling)
+    "C08": (lambda c: not isa_cmp.is_control(c) and not isa_cmp.is_stack(c) and not isa_cmp.is_os(c),
+            ("mem", "fault-mismatch", "mem-after-fault", "regs", "xmm")),
 }
 
 
@@ -727,6 +758,27 @@ def instr_check(prop_id, tier, seed, gen_filter=None, extra_cases=None, with_hw=
         if isa_cmp.compare_impl_spec(code, wi.get(cid, []), ws.get(cid, [])):
             klines.append("%s %s (seen in %d generated cases this run)" % (f["id"], f["what"][:150], known.get(f["id"], 0)))
     res["known"] = klines
+    # the recorded behaviour of known-finding witnesses must not change (only that deviation is known)
+    gp = os.path.join(ROOT, "corpus/kf_golden.json")
+    if os.path.exists(gp):
+        open_ids = set(f["id"] for f in known_for_any(prop_id))
+        gold = [g for g in json.load(open(gp)) if g["kf"] in open_ids]
+        if gold:
+            glines = [l for g in gold for l in g["case"]]
+            gi, _ = axv.run_pair(hs["release"], glines, False, False, prop_id + "-gold", mode="spec")
+            nbad = 0
+            for g in gold:
+                cid = g["case"][0][5:]
+                if gi.get(cid) != g["impl"]:
+                    nbad += 1
+                    if len(res["violations"]) < 3:
+                        first = next(((x, y) for x, y in zip(gi.get(cid, []), g["impl"]) if x != y), ("", ""))
+                        res["violations"].append((
+                            "%s: behaviour on a recorded witness of %s changed: now `%s`, recorded `%s`" % (
+                                g["code"], g["kf"], first[0][:150], first[1][:150]),
+                            dict(case=g["case"], impl=gi.get(cid), recorded=g["impl"])))
+            res["extra"]["known_finding_witnesses_replayed"] = len(gold)
+            res["extra"]["known_finding_witnesses_changed"] = nbad
     return res
 
 
